@@ -48,7 +48,8 @@ def gen_ast(rng):
                 ins.append("%g")
             op = {"k": "gen", "ins": ins, "dst": dst, "tag": t()}
             if rng.random() < 0.3:
-                op["scalar"] = "%off"  # the kernel also takes the index-dependent offset as a scalar operand
+                # the kernel also takes a scalar operand: the index-dependent offset, or a value from outside of the loop
+                op["scalar"] = rng.choice(["%off", "%sta", "%sta"])
             ops.append(op)
         r = rng.random()
         if r < 0.2 and (s > 0 or odd):
@@ -82,8 +83,9 @@ def gen_ast(rng):
     post = None
     if rng.random() < 0.12:
         post = {"tag": t(), "src": f"%t{rng.randrange(ntmp)}"}  # a temporary of the loop is read once more behind the loop
+    lb_shared = rng.random() < 0.15  # the constant that is the lower bound is also used inside the body (when it is 0)
     ring = rng.choice([0, 0, 0, 3, 4])  # the side output goes to a ring of `ring` slots: an arith.remui among the index ops
-    return {"nst": nst, "tmps": ntmp, "skip": skip is not None, "tail": tail, "ring": ring, "post": post, "alias": alias, "const_bounds": rng.random() < 0.75, "stages": stages}
+    return {"nst": nst, "tmps": ntmp, "skip": skip is not None, "tail": tail, "ring": ring, "post": post, "alias": alias, "lb_shared": lb_shared, "const_bounds": rng.random() < 0.75, "stages": stages}
 
 
 def op_text(o):
@@ -128,7 +130,11 @@ def emit(ast, env=None) -> str:
     e(f'    "memref.copy"(%G, %g) {{vtag = 99 : i64}} : ({T1}, {T1}) -> ()')
     e('    "snax.cluster_sync_op"() : () -> ()')
     e(f"    scf.for %i = {lb} to {ub} step {st} {{")
-    e("      %off = arith.muli %i, %cE : index")
+    if ast.get("lb_shared") and ast["const_bounds"] and env["lb"] == 0:
+        e("      %off0 = arith.muli %i, %cE : index")
+        e("      %off = arith.addi %off0, %lb : index")
+    else:
+        e("      %off = arith.muli %i, %cE : index")
     e(f"      %sa = memref.subview %A[%off][{E}][1] : {BIG} to {TS}")
     e(f"      %so = memref.subview %O[%off][{E}][1] : {BIG} to {TS}")
     if ast.get("ring"):
@@ -179,6 +185,8 @@ def shrink_ast(ast):
         yield dict(ast, tail=None)
     if ast.get("post"):
         yield dict(ast, post=None)
+    if ast.get("lb_shared"):
+        yield dict(ast, lb_shared=False)
     for s_, ops_ in enumerate(ast["stages"]):
         for j_, o_ in enumerate(ops_):
             if o_.get("scalar"):
